@@ -7,6 +7,14 @@ CONSTANTS
   Registrars <- MCRegistrars
   Processors <- MCProcessors
   Shared <- MCShared
+  UserMut <- MCUserMut
+  EvMut <- MCEvMut
+  EvInit <- MCEvInit
+  Panickers <- MCPanickers
+  EvLimit = @EVLIMIT@
+  SnapShares = @SNAPSHARES@
+  MShape = "@MSHAPE@"
+  PShape = "@PSHAPE@"
   ExecTracer = @EXECTRACER@
   Shape = "@SHAPE@"
   AllowKnown = TRUE
